@@ -85,7 +85,28 @@ fn case(t0: &mut Tape, w: &Worker) -> CaseResult {
         _ => w.tier.pick(2_000_000, 8_000_000),
     };
     let reps = (target / base_len).clamp(1, 4000);
-    let mut stream = replicate(&cs.stream, reps);
+    // the reader -> analysis queue holds 100 batches of 100 packets: a quarter of the cases use many small (RDH-only)
+    // packets so that the reader can run more than 10 000 packets ahead and block on the full queue
+    let many_small = ot.chance(1, 4);
+    let mut stream = if many_small {
+        let n_hbf = 6_000 + ot.below(w.tier.pick(6_000, 16_000));
+        let mut packets = Vec::with_capacity(n_hbf * 2);
+        let tmpl = cs.stream.links[0].packets[0].rdh.clone();
+        for h in 0..n_hbf {
+            for (page, stop) in [(0u16, 0u8), (1, 1)] {
+                let mut r = tmpl.clone();
+                r.orbit = tmpl.orbit.wrapping_add(h as u32 + 1);
+                r.pages_counter = page;
+                r.stop_bit = stop;
+                let mut p = Packet::new(r);
+                p.fix_sizes();
+                packets.push(p);
+            }
+        }
+        Stream::single(Link { packets, barrel: Barrel::Inner, lane_ids: vec![] })
+    } else {
+        replicate(&cs.stream, reps)
+    };
     let mut expect_errors = false;
     match kind {
         StopKind::ErrorCap => {
@@ -283,6 +304,9 @@ fn case(t0: &mut Tape, w: &Worker) -> CaseResult {
     out.labels.push(if stdin { "src:pipe".into() } else { "src:file".into() });
     out.labels.push(format!("perturbation:{}", ["off", "off", "random", "slow_validator", "slow_collector", "slow_writer"][perturb]));
     out.labels.push(if landed { "stop_landed_midrun".into() } else { "stop_after_exit_or_not_reached".into() });
+    if many_small {
+        out.labels.push("many_small_packets(>10000)".into());
+    }
     out.labels.push(format!("size:{}", if data.len() < 400_000 { "<0.4MB" } else if data.len() < 2_000_000 { "0.4-2MB" } else { ">=2MB" }));
     out.nontrivial = landed;
     out.fingerprint = fnv64(&data[..data.len().min(4096)]) ^ fnv64(format!("{kind:?}{mode:?}{action:?}{stdin}{perturb}").as_bytes());
